@@ -12,7 +12,9 @@ def build(D, layout, P, sp=None):
         if d:
             cn[k] = 1 + (i % 2)
             parts.append(block(k, [], cn[k] * P, sp, D, 1000.0 * (i + 1)))
-        if c:
+        if c == "zero":
+            cdict[k] = 0          # explicit "no constant fields of this type"
+        elif c:
             ccn[k] = 1 + ((i + 1) % 2)
             cdict[k] = ccn[k]
             parts.append(block(k, [], ccn[k], sp, D, -100.0 * (i + 1)))
@@ -94,6 +96,7 @@ LAYOUTS = [
     [[[0, 0], True, True], [[1, 0], True, False]],
     [[[0, 1], False, True], [[1, 0], True, True]],
     [[[0, 0], True, False]],
+    [[[0, 0], True, True], [[1, 0], True, "zero"]],
     [[[1, 0], True, True], [[0, 0], True, True], [[0, 1], False, True]],
     [[[1, 1], True, False], [[0, 0], False, True], [[2, 0], True, True]],
 ]
